@@ -432,7 +432,7 @@ func (o *ovsdbClient) tryEndpoint(ctx context.Context, u *url.URL) (string, erro
 func (o *ovsdbClient) createRPC2Client(conn net.Conn) {
 	o.stopCh = make(chan struct{})
 	if o.options.inactivityTimeout > 0 {
-		o.trafficSeen = make(chan struct{})
+		o.trafficSeen = make(chan struct{}, 1)
 	}
 	o.rpcClient = rpc2.NewClientWithCodec(jsonrpc.NewJSONCodec(conn))
 	o.rpcClient.SetBlocking(true)
@@ -858,7 +858,12 @@ func (o *ovsdbClient) transact(ctx context.Context, dbName string, skipChWrite b
 	}
 
 	if !skipChWrite && o.trafficSeen != nil {
-		o.trafficSeen <- struct{}{}
+		// tell the inactivity prober, without waiting for it: it may be
+		// gone by now if the connection was lost meanwhile
+		select {
+		case o.trafficSeen <- struct{}{}:
+		default:
+		}
 	}
 	return reply, nil
 }
@@ -1346,9 +1351,6 @@ func (o *ovsdbClient) handleDisconnectNotification() {
 	<-o.rpcClient.DisconnectNotify()
 	// close the stopCh, which will stop the cache event processor
 	close(o.stopCh)
-	if o.trafficSeen != nil {
-		close(o.trafficSeen)
-	}
 	o.metrics.numDisconnects.Inc()
 	// wait for client related handlers to shutdown
 	o.handlerShutdown.Wait()
